@@ -115,6 +115,30 @@ def gen(rng, tier):
         op = 'ins' if kind == 'ins-op' else 'insm'
         line = "%s %s %s %s" % (op, KIND[d['kind']], S.args(d), " ".join(req_txt(p, n_) for p, n_ in reqs))
         out.append(Case(kind, line, dict(shape=d, reqs=[[p, n_] for p, n_ in reqs])))
+    # the parameter value 0 (falsy in Python) strictly inside an un-normalised domain: it is a parameter like
+    # any other
+    for _ in range(10 if tier == 'quick' else 120):
+        d = _shape(rng)
+        nd = len(S.dirs(d))
+        i = rng.randrange(nd)
+        key = {'curve': ['kv'], 'surface': ['kvu', 'kvv'], 'volume': ['kvu', 'kvv', 'kvw']}[d['kind']][i]
+        p, kv, n_ = S.dirs(d)[i]
+        lo, hi = kv[p], kv[n_]
+        if hi == lo:
+            continue
+        t = rng.choice([F(1, 2), F(1, 3), F(1, 5), F(3, 4)])          # where 0 will sit inside the domain
+        a = rng.choice([F(2), F(3), F(1)])
+        d[key] = [a * ((x - lo) / (hi - lo) - t) for x in kv]        # domain [-a t, a (1 - t)]
+        p, kv, n_ = S.dirs(d)[i]
+        s0 = sum(1 for x in kv if x == 0)
+        if s0 >= p:
+            continue
+        prm = [None] * nd; prm[i] = F(0)
+        nums = [0] * nd; nums[i] = rng.randint(1, p - s0)
+        kind = rng.choice(['ins-op', 'ins-op', 'ins-method'])
+        line = "%s %s %s %s" % ('ins' if kind == 'ins-op' else 'insm', KIND[d['kind']], S.args(d), req_txt(prm, nums))
+        G.count('ins_param', 'zero-inside-domain')
+        out.append(Case(kind, line, dict(shape=d, reqs=[[prm, nums]]), tags=('zero-param',)))
     return out
 
 
